@@ -215,7 +215,7 @@ Definition equery (rules : list brule) (max_depth : Z) (e : bengine) (q : sx) (g
     observation: per op ()  or  (provable goal-holds-in-returned-facts facts)                                *)
 Definition dec_bcond (s : sx) : option bcond :=
   match s with
-  | L [f; A o; v] => match getZs f, (match o with 0 => Some OEq | 1 => Some ONe | 2 => Some OGt | 3 => Some OGe | 4 => Some OLt | 5 => Some OLe | _ => None end), dec_val v with
+  | L [f; A o; v] => match getZs f, (match o with 0 => Some OEq | 1 => Some ONe | 2 => Some OGt | 3 => Some OGe | 4 => Some OLt | 5 => Some OLe | 6 => Some OContains | 8 => Some OStartsWith | 9 => Some OEndsWith | _ => None end), dec_val v with
                      | Some f, Some o, Some v => Some {| b_field := f; b_op := o; b_val := v |} | _, _, _ => None end
   | _ => None end.
 Fixpoint dec_bgroup (s : sx) : option bgroup :=
@@ -230,12 +230,14 @@ Definition dec_brule (s : sx) : option brule :=
                      | Some c, Some sets => Some {| br_cond := c; br_sets := sets |} | _, _ => None end
   | _ => None end.
 
-Inductive bop := QAsk (g : bcond) (q : sx) | QSet (k : str) (v : value) | QDel (k : str).
+(** QNoise: an aggregate query that fails after the engine has changed its own configuration for it (must be invisible) *)
+Inductive bop := QAsk (g : bcond) (q : sx) | QSet (k : str) (v : value) | QDel (k : str) | QNoise.
 Definition dec_bop (s : sx) : option bop :=
   match s with
   | L [A 0; g] => match dec_bcond g with Some c => Some (QAsk c g) | None => None end
   | L [A 1; k; v] => match getZs k, dec_val v with Some k, Some v => Some (QSet k v) | _, _ => None end
   | L [A 2; k] => match getZs k with Some k => Some (QDel k) | None => None end
+  | L [A 3] => Some QNoise
   | _ => None end.
 
 Fixpoint fdel (f : facts) (k : str) : facts :=
@@ -247,6 +249,7 @@ Fixpoint run_ops (rules : list brule) (strategy max_depth : Z) (e : bengine) (f 
   | [] => []
   | QSet k v :: r => L [] :: run_ops rules strategy max_depth e (fset f k v) r
   | QDel k :: r => L [] :: run_ops rules strategy max_depth e (fdel f k) r
+  | QNoise :: r => L [] :: run_ops rules strategy max_depth e f r
   | QAsk g q :: r =>
       let '(e', (ok, f')) :=
         if strategy =? 0 then equery rules max_depth e q g f
@@ -296,7 +299,7 @@ Definition monotone (rs : list brule) (f : facts) : bool :=
 Fixpoint ok_ops (unch : bool) (rules : list brule) (strategy max_depth : Z) (det : bool) (ops : list bop) (obs : list sx) : bool :=
   match ops, obs with
   | [], [] => true
-  | QAsk g q :: r, L [A p; fb; fa] :: o =>
+  | QAsk g q :: r, L (A p :: fb :: fa :: same) :: o =>
       match dec_facts fb, dec_facts fa with
       | Some fb, Some fa =>
           let provable := negb (p =? 0) in
@@ -306,9 +309,12 @@ Fixpoint ok_ops (unch : bool) (rules : list brule) (strategy max_depth : Z) (det
                        else Bool.eqb provable (fst (if strategy =? 0 then dfs rules max_depth g fb else ids rules max_depth g fb)) in
           (* C10: a query reported not provable leaves the caller's facts exactly as they were *)
           let unchanged := negb unch || provable || sx_eqb (enc_facts fb) (enc_facts fa) in
-          sound && complete && fresh && unchanged && ok_ops unch rules strategy max_depth det r o
+          (* reported by the harness: the whole QueryResult (verdict; number of solutions when max_solutions = 1) is the one a freshly
+             built engine returns on the same facts *)
+          let same_as_fresh := match same with [A 0] => false | _ => true end in
+          sound && complete && fresh && unchanged && same_as_fresh && ok_ops unch rules strategy max_depth det r o
       | _, _ => false end
-  | (QSet _ _ | QDel _) :: r, L [] :: o => ok_ops unch rules strategy max_depth det r o
+  | (QSet _ _ | QDel _ | QNoise) :: r, L [] :: o => ok_ops unch rules strategy max_depth det r o
   | _, _ => false
   end.
 
